@@ -364,10 +364,41 @@ def parallel_map(module: str, func: str, items: list, nproc: Optional[int] = Non
     if p.returncode != 0:
       raise MachineryError(f'replay worker failed {module}.{func}:\n{so[-4000:]}')
     with open(fout) as f:
-      res.extend(json.load(f))
+      part = json.load(f)
+    if isinstance(part, dict) and '__library_error__' in part:
+      raise LibraryError(part['__library_error__'])
+    res.extend(part)
     os.remove(fin)
     os.remove(fout)
   return res
+
+
+class LibraryError(Exception):
+  """The library under test raised while executing a behaviour the specification allows, outside a
+  per-case wrapper (e.g. while a trace was being recorded).  A verdict (exit 1), not a machinery
+  failure: carries the formatted traceback."""
+
+
+def library_raised(ex: BaseException) -> bool:
+  """True when the innermost frame that is neither the python/jax runtime nor the harness lies in the
+  library under test ($VERIF_REPO/dinosaur): the code, not the machinery, raised."""
+  import traceback
+  repo = os.path.realpath(os.path.join(REPO, 'dinosaur')) + os.sep
+  here = os.path.realpath(VERIF) + os.sep
+  frames = [f for f in traceback.extract_tb(ex.__traceback__)
+            if '/site-packages/' not in f.filename and '/lib/python' not in f.filename and not f.filename.startswith('<')]
+  if not frames or harness_artifact(ex):
+    return False
+  inner = os.path.realpath(frames[-1].filename)
+  return inner.startswith(repo) and not inner.startswith(here)
+
+
+def harness_artifact(ex: BaseException) -> bool:
+  """True for exceptions that exist only because the harness runs the library with jax.disable_jit()
+  (python-side event logging needs eager execution), e.g. 'zero-length scan is not supported in
+  disable_jit() mode'.  Such an execution says nothing about the code: the caller skips the eager
+  mode (the jitted replay of the same behaviour still decides) instead of raising an alarm."""
+  return 'disable_jit' in str(ex)
 
 
 def per_case(one: Callable[[Any], list], kind: str = '') -> Callable[[list], list]:
